@@ -12,6 +12,8 @@ import (
 	"unsafe"
 
 	dtpb "github.com/google/fhir/go/proto/google/fhir/proto/r4/core/datatypes_go_proto"
+	ppb "github.com/google/fhir/go/proto/google/fhir/proto/r4/core/resources/patient_go_proto"
+	"github.com/verily-src/fhirpath-go/fhirpath"
 	"github.com/verily-src/fhirpath-go/fhirpath/evalopts"
 	"github.com/verily-src/fhirpath-go/fhirpath/system"
 	"github.com/verily-src/fhirpath-go/fhirpath/verifharness/core"
@@ -32,7 +34,7 @@ func init() {
 		Assumptions: []string{"typed-reference strings and elements under `contained` are synthesized/unpacked into fresh objects by design (compared by value)",
 			"Mutable() on an empty list is invisible in proto semantics and is not flagged"},
 		Run:    runC03,
-		Checks: map[string]func(*core.Env, []json.RawMessage){"prog": replayC03},
+		Checks: map[string]func(*core.Env, []json.RawMessage){"nilmembers": func(env *core.Env, a []json.RawMessage) { c03NilMembers(env) }, "prog": replayC03},
 		Threshold: func(m *core.Merged) []string {
 			var r []string
 			for _, k := range []string{"evaluated", "returned-elements", "errored", "aliasing-program", "generated-program", "spare-capacity-checked", "expression-digest", "table-args"} {
@@ -459,7 +461,91 @@ var c03Aliasing = []string{
 	"%r.descendants().where($this is Quantity).select($this + $this)", "%r.descendants().where($this is Quantity).select($this < $this)", "%r.descendants().toQuantity()", "%r.descendants().select(toString())",
 }
 
+// goShape renders the exported Go fields of a message tree: which pointers, slices and interfaces are nil, and the
+// scalar values. Two messages that serialise alike can still differ here (a selected oneof case whose member is nil
+// against the same case with an allocated empty member).
+func goShape(v any) string {
+	var b strings.Builder
+	var walk func(rv reflect.Value, depth int)
+	walk = func(rv reflect.Value, depth int) {
+		if depth > 60 || !rv.IsValid() {
+			b.WriteString("?")
+			return
+		}
+		switch rv.Kind() {
+		case reflect.Ptr, reflect.Interface:
+			if rv.IsNil() {
+				b.WriteString("nil;")
+				return
+			}
+			b.WriteString("&")
+			walk(rv.Elem(), depth+1)
+		case reflect.Struct:
+			b.WriteString(rv.Type().Name() + "{")
+			for i := 0; i < rv.NumField(); i++ {
+				if f := rv.Type().Field(i); f.IsExported() {
+					b.WriteString(f.Name + ":")
+					walk(rv.Field(i), depth+1)
+				}
+			}
+			b.WriteString("}")
+		case reflect.Slice:
+			if rv.IsNil() {
+				b.WriteString("nil;")
+				return
+			}
+			fmt.Fprintf(&b, "[%d:", rv.Len())
+			if rv.Type().Elem().Kind() != reflect.Uint8 {
+				for i := 0; i < rv.Len(); i++ {
+					walk(rv.Index(i), depth+1)
+				}
+			}
+			b.WriteString("]")
+		default:
+			fmt.Fprintf(&b, "%v;", rv.Interface())
+		}
+	}
+	walk(reflect.ValueOf(v), 0)
+	return b.String()
+}
+
+// c03NilMembers: inputs whose choice wrappers select a case but hold no member message (legal Go values that
+// serialise like an allocated empty member): navigation reads them and leaves them as they are.
+func c03NilMembers(env *core.Env) {
+	defer env.In("nilmembers")()
+	env.Case()
+	mk := func() (*ppb.Patient, *dtpb.Extension) {
+		p := gen.StdPatient()
+		p.Deceased = &ppb.Patient_DeceasedX{Choice: &ppb.Patient_DeceasedX_Boolean{}}
+		p.MultipleBirth = &ppb.Patient_MultipleBirthX{Choice: &ppb.Patient_MultipleBirthX_Integer{}}
+		p.Extension = append(p.Extension, &dtpb.Extension{Url: &dtpb.Uri{Value: "http://u/nil"}, Value: &dtpb.Extension_ValueX{Choice: &dtpb.Extension_ValueX_StringValue{}}}, &dtpb.Extension{Url: &dtpb.Uri{Value: "http://u/nil2"}, Value: &dtpb.Extension_ValueX{}})
+		p.ManagingOrganization = &dtpb.Reference{Reference: &dtpb.Reference_OrganizationId{}}
+		e := &dtpb.Extension{Url: &dtpb.Uri{Value: "http://u/e"}, Value: &dtpb.Extension_ValueX{Choice: &dtpb.Extension_ValueX_Quantity{}}}
+		return p, e
+	}
+	for _, src := range []string{"Patient.deceased", "Patient.multipleBirth", "Patient.children()", "Patient.descendants().count()", "Patient.extension.value", "Patient.extension.where(url = 'http://u/nil').value", "Patient.deceased.exists()", "Patient.deceased = true",
+		"Patient.deceased is boolean", "Patient.deceased as boolean", "Patient.multipleBirth + 1", "Patient.managingOrganization.reference", "Patient.managingOrganization.children()", "%e.value", "%e.children()", "%e.value is Quantity", "%e.descendants()", "Patient.extension.select(value)", "Patient.extension.value.toString()", "Patient.deceased.not()"} {
+		p, e := mk()
+		before, beforeE := goShape(p), goShape(e)
+		r := fx.Eval(env, src, []fhir.Resource{p}, nil, []fhirpath.EvaluateOption{evalopts.EnvVariable("e", e)})
+		env.Cover("nil-choice-member")
+		if r.IsPanic() {
+			env.Skip("nil-member-input-panics") // outside the domain of C01 (typed-nil elements are caller errors); not a mutation
+			continue
+		}
+		if after := goShape(p); after != before {
+			env.Violatef("C03/resource-mutated/nil-choice-member", "`%s`: the input Patient (choice wrappers with a selected case and no member) changed shape: a nil member was allocated or a field was set", src)
+		}
+		if after := goShape(e); after != beforeE {
+			env.Violatef("C03/variable-mutated/nil-choice-member", "`%s`: the element bound to %%e (value[x] with a selected case and no member) changed shape", src)
+		}
+	}
+}
+
 func runC03(env *core.Env) {
+	if env.Shard == 2%env.NShards {
+		c03NilMembers(env)
+	}
 	types := gen.ResourceTypes()
 	names := funcNames()
 	rng := env.Rng("c03")
